@@ -15,6 +15,7 @@ TRANSLATORS = [
     # module, output files
     ('gen_lexer', ['Atoms.v', 'Rules.v', 'CaseTabs.v', 'KwTabs.v']),
     ('gen_splitter', ['SplitTab.v']),
+    ('gen_singleton', ['SingletonProg.v']),
 ]
 
 
